@@ -179,7 +179,7 @@ def plan(tier, seed):
     m = model(tier)
     scs = [dict(init=i, first=op) for i in range(len(INITS)) for op in m.ops(None, 0)]
     scs.append(dict(example3=True))
-    return dict(scenarios=scs, exhaustive=True, chunk=1,
+    return dict(scenarios=scs, exhaustive=True, chunk=1, timeout=7200,
                 menus=dict(initial_states=INITS, pattern_pairs=[p[0] for p in PAIRS], replace_all=[0, 1], real='docs Example 3: uio66.cif, metal centre then linker (parameterised lmpdat patterns)'),
                 bounds=dict(depth=m.depth, atoms=6),
                 rule='one scenario per (initial state, first replacement); breadth-first search over further replacements; non-trivial = distinct states',
